@@ -41,7 +41,12 @@ class BaseObject(object):
             if key in ["id", "oid"]:
                 continue
 
-            if getattr(self, key) != getattr(obj, key):
+            mine, theirs = getattr(self, key), getattr(obj, key)
+            if mine != theirs:
+                # 'not a number' is unequal even to itself; two attributes
+                # that both hold it have the same content nevertheless.
+                if mine != mine and theirs != theirs:
+                    continue
                 return False
 
         return True
